@@ -216,12 +216,12 @@ def run(pid, tier, replay):
                     ncfg += 1
                     out.write(json.dumps(c) + "\n")
         obs = chk.path("obs_enum.ndjson")
-        core.run_bin(obj, ["disp-replay", cases, (3 if pid == "C29" else 2) if quick else 8, chk.seed, obs])
+        core.run_bin(obj, ["disp-replay", cases, (4 if pid == "C29" else 3) if quick else 10, chk.seed, obs])
         core.log("[%s] %d configurations generated and run in %.1fs" % (pid, ncfg, time.time() - t0))
         return parts, ncfg, obs
 
     def rand_phase():
-        classes = [("burst", 200 if quick else 6000)] if pid == "C29" else [("mutate", 150 if quick else 4000), ("lazy", 60 if quick else 600)]
+        classes = [("burst", 400 if quick else 6000)] if pid == "C29" else [("mutate", 300 if quick else 4000), ("lazy", 120 if quick else 600)]
         robs = chk.path("obs_rand.ndjson")
         with open(robs, "w") as f:
             for cls, n in classes:
@@ -241,7 +241,7 @@ def run(pid, tier, replay):
         with open(allobs, "w") as f:
             f.write(open(obs).read())
             f.write(open(robs).read())
-        total, ok, drift = decide(chk, pid, allobs, shards=3 if quick else 12, workers=3)
+        total, ok, drift = decide(chk, pid, allobs, shards=2 if quick else 10, workers=4)
         core.log("[%s] %d traces validated in %.1fs" % (pid, len(total), time.time() - t0))
         f_mc.result()
     n_enum = sum(1 for i in total if i < 1000000)
